@@ -4,6 +4,7 @@
     per-partition boundary trace must be accepted by the model and the model's log, verdicts and
     acknowledgements must equal the simulated leader's ground truth;
 (3) independent monitors stating the property on the simulated logs."""
+import json
 import random
 
 import prodsim
@@ -127,6 +128,81 @@ def monitor(ck, sc, r):
                 elif e["ev"] in ("c_ok", "c_retry", "c_fatal"):
                     infl = False
     return bad
+
+
+def check_transactional(ck: Check):
+    """The transactional producer is an idempotent producer whose batches can also be dropped or waited for by
+    commit_transaction() / abort_transaction().  Real AIOKafkaProducer(transactional_id=...) under C07's driver:
+    retriable Produce faults only, the transaction ended (commit or abort, not waiting for the sends) at each time
+    of a grid - in particular while a batch that already owns its sequence numbers sits re-enqueued - then a
+    second transaction on the same partitions.  C01's clauses on the leaders' ground truth: no sequence gap or
+    reuse is ever presented, every accepted record is appended at most once, every acknowledged one exactly once,
+    and per partition the first occurrences follow the order of issue."""
+    import c07
+    rng = random.Random(ck.seed * 6151 + 101)
+    scs = []
+    sid = 10000
+    for ea in c07.REENQ_END_AFTER + [0.03, 0.045, 0.06, 0.1, 0.2]:
+        for end in ("abort", "commit"):
+            for code in ck.n([6], [6, 3, 7, 19]):
+                scs.append(c07.gen_abort_reenqueued_scenario(rng, sid, ea, code=code, end=end))
+                sid += 1
+    for _ in range(ck.n(6, 150)):
+        sc = c07.gen_scenario(rng, sid)
+        sid += 1
+        sc["instances"] = sc["instances"][:1]
+        for _f in range(rng.choice([1, 2])):
+            kind, code = rng.choice(c07.RETRIABLE_FAULTS["Produce"])
+            sc["faults"][f"Produce:{rng.randrange(1, 5)}"] = c07.mk_fault(kind, code)
+        scs.append(sc)
+    results = c07.run_scenarios(scs, timeout=900)
+    nbad = {}
+    ran = 0
+
+    def viol(sig, what, sc, r):
+        nbad[sig] = nbad.get(sig, 0) + 1
+        if nbad[sig] <= 3:
+            ck.violation(f"{what} (transactional scenario {sc['id']}, family {sc.get('family', 'random')})",
+                         {"driver": "c07_impl.py", "scenario": sc, "what": what, "txns": r["txns"],
+                          "sends": r["sends"],
+                          "arrivals": {p: [[a.get("seq"), a.get("count"), a["verdict"]] for a in lg["arrivals"]]
+                                       for p, lg in r["logs"].items()}},
+                         signature="transactional:" + sig)
+
+    for sc, r in zip(scs, results):
+        if not r.get("ok"):
+            continue
+        ran += 1
+        state = {sd["rid"]: sd for sd in r["sends"]}
+        for p in range(sc["partitions"]):
+            lg = r["logs"][str(p)]
+            gaps = [(a.get("seq"), a.get("count")) for a in lg["arrivals"] if a["verdict"] == "out_of_order"]
+            if gaps:
+                viol("sequence-gap", f"partition {p}: the leader was presented with out-of-sequence batches "
+                     f"(base sequence, count) {gaps} although only retriable faults occurred", sc, r)
+            rids = [rid for b in lg["batches"] if not b["control"] for rid in b["rids"]]
+            dup = sorted({x for x in rids if rids.count(x) > 1})
+            if dup:
+                viol("duplicate", f"partition {p}: records {dup} were appended more than once", sc, r)
+            unknown = [x for x in rids if state.get(x, {}).get("state") in (None, "refused", "call")]
+            if unknown:
+                viol("not-accepted", f"partition {p}: records {unknown} were appended but their send() was never "
+                     f"accepted", sc, r)
+            acked = [x for x, sd in state.items() if sd["p"] == p and sd.get("state") == "ok"]
+            missing = [x for x in acked if x not in rids]
+            if missing:
+                viol("acked-missing", f"partition {p}: records {missing} were acknowledged but are not in the log",
+                     sc, r)
+        seqerr = [(sd["rid"], sd.get("exc")) for sd in r["sends"] if sd.get("exc") == "OutOfOrderSequenceNumber"]
+        if seqerr:
+            viol("sequence-error", f"send futures failed with a sequence error under retriable faults: {seqerr}",
+                 sc, r)
+        ck.count(key=("txn", json.dumps(sc["instances"], sort_keys=True), json.dumps(sc["faults"], sort_keys=True)),
+                 nontrivial=any(e["ev"] == "c_retry" for e in r["trace"]))
+    ck.obligation("correspondence:transactional-scenarios-ran", ran == len(scs),
+                  f"{len(scs) - ran} of {len(scs)} scenarios failed to run")
+    ck.extra["transactional_family"] = {"scenarios": len(scs), "violations": nbad}
+    ck.log(f"transactional family: {len(scs)} scenarios, violations {nbad}")
 
 
 def run(ck: Check):
@@ -313,3 +389,4 @@ def run(ck: Check):
     ck.obligation("correspondence:model-log-equals-simulated-leader-log", mismatched == 0, f"{mismatched} differ")
     ck.cov["traces_validated_against_impl"] = len(traces) - rejected - mismatched
     ck.log(f"model acceptance: {len(traces)} traces, rejected={rejected}, mismatched={mismatched}, coq_fail={coq_fail}")
+    check_transactional(ck)
